@@ -2719,6 +2719,8 @@ def _run_function_optimizer_pass(opt_pass: _OptimizerPass, graph: ir.Graph) -> N
     if DEBUG:
         _dbg("running pass", opt_pass.name, "on function graph")
     opt_pass.function_graph_runner(graph)
+    # Keep the body serializable after every pass (the pipeline may stop here).
+    _inline_function_body_initializers(graph)
 
 
 def _inline_function_body_initializers(graph: ir.Graph) -> None:
@@ -2758,6 +2760,5 @@ def optimize_graph(ir_model: ir.Model) -> ir.Model:
         fgr = cast(ir.Graph, graph_obj)
         for opt_pass in _OPTIMIZER_PASSES:
             _run_function_optimizer_pass(opt_pass, fgr)
-        _inline_function_body_initializers(fgr)
 
     return ir_model
